@@ -4,6 +4,7 @@ import GscribModel.Props.C02
 import GscribModel.Props.C07
 import GscribModel.Props.C06
 import GscribModel.Props.C03
+import GscribModel.Props.C20
 /-! # C01 and C02 for the translated source
 
 `MotionTie_run` (every history: running the translated source of the builder's commands is running the model) composed with the
@@ -297,3 +298,15 @@ theorem SourceTie_C03 (b : B) (op : Op) (hok : OpOk b op) :
   rw [← h3'] at hl
   obtain ⟨s, hs, rfl⟩ := List.mem_map.mp hl
   exact lineOk_view b s (C03_words b op s hs)
+
+/-! ## C20 (hook calls) read off the translated source -/
+open GscribModel.MotionTie in
+/-- **C20 (hook calls) for the translated source**: a translated `move()` whose target is inside the axes box hands every
+    registered hook, once and in registration order, the true absolute origin (the tracked position, unknown axes as 0) and the
+    true absolute target of that move - in either distance mode, whatever the hooks then return. -/
+theorem SourceTie_C20 (b : B) (req : Pt) (ps : VParams) (h : Rat)
+    (hd : DoubleFS (if b.hooks.isEmpty then ps else applyHooks b h ps)) (hb : b.bounds.okAxes (b.toAbsolute req) = true) :
+    (GCodeCore.move (absB b) req ps h).1.calls = b.hooks.map (fun _ => ⟨b.axes.resolve, b.toAbsolute req⟩) := by
+  obtain ⟨_, _, _, h4⟩ := MotionTie_move b req ps h hd
+  rw [← h4]
+  exact (C20_hook_calls_move b (VPt.ofPt req) ps h req (ofPt_fin req) hb).1
